@@ -122,6 +122,8 @@ def check_variant(rep, db, f, inst):
                 ctor = [e for e in p.events[:i] if e.kind == "CALL" and (e.extra or {}).get("ret") == a and (e.extra or {}).get("ctor")]
                 bad = None
                 for e in ctor:
+                    if q.short(e.a) in ("basic_string", "vector"):
+                        continue  # owning containers copy the bytes they are constructed from (the copy's extent is R-C09-single-fetch's)
                     for x in e.b:
                         if x != C(0) and not local_object(p, x) and T.get("k") == "ptr" and points_into_sandbox(p, x, this_ptr):
                             bad = x
